@@ -502,4 +502,30 @@ theorem allSound : ∀ n, AllSound n
       dFind := step_dFind ih
       dLoop := step_dLoop ih }
 
+theorem sound_load (fuel : Nat) (cfg : Cfg) (name : Name) (s : St) (hs : Inv cfg s) :
+    wp (load fuel cfg name) (fun o s' => Inv cfg s' ∧ ∀ d, o = .found d → GoodDef cfg (keyOf name) d) (Inv cfg) s := by
+  unfold load
+  simp only [wp_bind]
+  refine wp_mono ((allSound fuel).loadEntry cfg cfg.via name s hs) ?_ (fun _ h => h)
+  intro e s1 ⟨hs1, he⟩
+  match e, he with
+  | none, _ =>
+    simp only [wp_bind]
+    refine wp_mono (sound_setEntry hs1 cfg.via (keyOf name) none (fun d hd => by cases hd)) ?_ (fun _ h => h)
+    intro _ s2 ⟨hs2, _⟩
+    exact ⟨hs2, fun d hd => by cases hd⟩
+  | some none, _ => exact ⟨hs1, fun d hd => by cases hd⟩
+  | some (some d), he => exact ⟨hs1, fun d' hd' => by cases hd'; exact he d rfl⟩
+
+theorem sound_loadS (fuel : Nat) (cfg : Cfg) (s : St) (name : Name) (hs : Inv cfg s) :
+    Inv cfg (loadS fuel cfg s name).2 ∧ ∀ d, (loadS fuel cfg s name).1 = .found d → GoodDef cfg (keyOf name) d := by
+  have h := sound_load fuel cfg name s hs
+  unfold wp at h
+  unfold loadS
+  cases hx : load fuel cfg name s with
+  | ok a s' => rw [hx] at h; exact h
+  | fail e s' => rw [hx] at h; exact ⟨h, fun d hd => by cases hd⟩
+
+theorem inv_init (cfg : Cfg) : Inv cfg {} := fun _ _ _ h => by cases h
+
 end Pcore.Files
